@@ -61,7 +61,7 @@ Lemma C05_push_file_partial_l :
                                    file_fetch s' name' d' = file_fetch s name' d').
 Proof.
   intros H comb fuel s name path d evs e s' R Pf E.
-  exact (proj2 (file_push_spec H comb fuel s name path d evs e s' (file_reach_ok H s R) Pf E)).
+  exact (proj2 (file_push_spec H comb fuel s name path d evs e s' (file_reach_ok H s R) (fun _ => Pf) E)).
 Qed.
 
 Lemma C05_push_bad_rejected_l :
